@@ -1,8 +1,8 @@
 """C01 — at-least-once delivery (engine E2): safety half proved, liveness partial."""
 import e2
 
-TIE = ["Nsq.Tie.Chan"]
-PROPS = ["Nsq.Props.C01", "Nsq.Props.C01Live", "Nsq.Props.C01Topic", "Nsq.Props.C01PumpLedger"]
+TIE = ["Nsq.Tie.Chan", "Nsq.Tie.TopicEph"]
+PROPS = ["Nsq.Props.C01", "Nsq.Props.C01Live", "Nsq.Props.C01Topic", "Nsq.Props.C01PumpLedger", "Nsq.Props.C01Eph", "Nsq.Props.C01Snap"]
 
 
 def run(ctx):
@@ -26,7 +26,15 @@ def run(ctx):
         ">= 1 channel infinitely often) and the four channel-level hypotheses per channel; not discharged for the Go scheduler",
         "an #ephemeral channel may drop on overflow and a sampling consumer may drop: the two deliberate drops of the statement",
         "Channel.Empty / channel deletion / shutdown windows belong to C08 / C05",
+        "#ephemeral TOPICS (audit A5) are an extension model (Nsq.Model.TopicEph over ChanNsqd, theorems Nsq.Props.C01Eph): "
+        "ack_implies_enqueued is FALSE for them (ack_implies_enqueued_false_ephemeral); an acknowledged publish is in the topic queue "
+        "XOR recorded as dropped (eph_ack_enqueued_or_dropped), dropped only when the memory queue had no room "
+        "(only_deliberate_drops_topic), and counted either way (eph_counts_include_dropped) — the third deliberate drop of the statement; "
+        "fanout_complete / the liveness theorems are NOT restated over the extension; an ephemeral topic deleting itself with its last "
+        "channel is not modelled",
     ]
+    if not ctx.replay_in:
+        ctx.gen("e2_topiceph")      # Topic.put / NewTopic's #ephemeral branch / dummyBackendQueue.Put (Nsq.Tie.TopicEph)
     res, broken = e2.run_property(ctx, "C01", TIE, PROPS)
     if (ctx.broken_ties or broken) and not ctx.violations:
         ctx.broken_without_input(ctx.broken_ties + broken,
